@@ -183,6 +183,7 @@ def run_asyncio_world(world, main: Callable[["SimLoop"], Any]) -> None:
         world.loop_exceptions = list(loop.exc_contexts)
         world.open_fds = sorted(fd for fd, obj in sim.fds.items())
         # Clean up so that the loop can be closed; nothing below is observed.
+        saved_heap = list(sim.heap)
         sim.heap.clear()
         for t in pending:
             t.cancel()
@@ -196,6 +197,14 @@ def run_asyncio_world(world, main: Callable[["SimLoop"], Any]) -> None:
         try:
             loop.close()
         except BaseException:
+            pass
+        try:
+            import heapq
+
+            sim.heap[:] = saved_heap
+            heapq.heapify(sim.heap)
+            sim._now = world.returned_at if world.returned_at is not None else sim._now
+        except NameError:
             pass
 
 
